@@ -168,6 +168,16 @@ func (h *heapRun) applyStats(o *obj, st Step, ret map[string]interface{}) bool {
 			cnt = append(cnt, c)
 		}
 		ret["n"] = cnt
+	case "LongestORFObj":
+		// the sequence returned by the ORF search becomes a live object of the heap (a set holding it, residues as returned)
+		orf, err := o.sb.LongestORF(ab(a, "rev"))
+		if err != nil {
+			h.lastErr = err
+			return true
+		}
+		nb := align.NewSeqBag(o.sb.Alphabet())
+		nb.AddSequenceChar(orf.Name(), orf.SequenceChar(), "")
+		ret["new"] = h.addBag(nb)
 	case "CountProfile":
 		p := align.NewCountProfileFromAlignment(needAlign(o))
 		l := []map[string]interface{}{}
@@ -283,6 +293,17 @@ func (h *heapRun) applyQuery(o *obj, st Step, ret map[string]interface{}) bool {
 			return true
 		}
 		m, err := protein.NewProtDistModel(pmodels.ModelStringToInt("jtt"), true, false, 0, true)
+		if err == nil {
+			m.InitModel(al, nil)
+			_, _, _, err = m.MLDist(al, nil)
+		}
+		ret["err"] = err != nil
+	case "protdist2":
+		// without gap-site removal (ambiguous states stay in the pairs that are compared)
+		if al.Alphabet() != align.AMINOACIDS || al.NbSequences() < 2 {
+			return true
+		}
+		m, err := protein.NewProtDistModel(pmodels.ModelStringToInt("lg"), true, false, 0, false)
 		if err == nil {
 			m.InitModel(al, nil)
 			_, _, _, err = m.MLDist(al, nil)
